@@ -887,6 +887,234 @@ def glob_script(r):
     return [l.encode('utf-8') for l in out], files
 
 
+# ---------------------------------------------------------------------------------------------
+# substitutions whose replacement refers to capture groups that sit in ABANDONED parts of the pattern: a group in an
+# alternative that is tried and given up, under ? / * / {m,n} when that part does not take part in the match (or takes part
+# in an earlier round only), nested groups -- with lines on which the abandoned branch gets into (and past) the group before it
+# fails.  What the matcher reports for such a group (unset, or the offsets of its last completed round) is what replace() in
+# ex.c turns into a pointer and a length for memcpy.
+# A pattern is a small tree so that matching lines can be drawn from it:
+#   ('lit', text) ('cls', pattern text, members) ('grp', alt) ('alt', [seq...]) ('seq', [piece...]) ('rep', node, suffix, lo, hi)
+# A loop (* + {m,n}) is only put on a node that cannot match the empty string (KF-EMPTY-LOOP is replayed separately).
+
+G_LITS = ['a', 'b', 'c', 'x', 'y', 'a', 'b', 'ab', 'é', '中']
+G_CLASSES = [('.', 'abcxy'), ('[ab]', 'ab'), ('[^a]', 'bcxy'), ('[a-c]', 'abc'), ('[[:alpha:]]', 'abxy')]
+G_ALPHA = ['a', 'b', 'c', 'x', 'y', 'a', 'b', 'é', '中', ' ']
+
+
+def g_atom(r, st, depth):
+    """(node, nullable, loopy): loopy = contains * + or {m,n}; a loop is never put on a loopy node (star height 1: the time a
+    failing match takes stays polynomial in the length of the line)."""
+    t = r.below(10)
+    if t < 4 or st['n'] >= st['max'] or depth >= 3:
+        if r.chance(1, 5):
+            p, mem = r.choice(G_CLASSES)
+            return ('cls', p, mem), False, False
+        return ('lit', r.choice(G_LITS)), False, False
+    st['n'] += 1
+    body, nl, lp = g_alt(r, st, depth + 1)
+    return ('grp', body), nl, lp
+
+
+def g_piece(r, st, depth):
+    a, nl, lp = g_atom(r, st, depth)
+    t = r.below(12)
+    if t < 5:
+        return a, nl, lp
+    if t < 8 or nl or lp:
+        return ('rep', a, '?', 0, 1), True, lp
+    suf, lo, hi = r.choice([('*', 0, 3), ('*', 0, 3), ('+', 1, 3), ('{1,2}', 1, 2), ('{0,2}', 0, 2), ('{2}', 2, 2)])
+    return ('rep', a, suf, lo, hi), lo == 0, True
+
+
+def g_seq(r, st, depth):
+    ps = [g_piece(r, st, depth) for _ in range(r.choice([1, 1, 2, 2, 3] if depth == 0 else [1, 1, 1, 2, 2, 3]))]
+    return ('seq', [p[0] for p in ps]), all(p[1] for p in ps), any(p[2] for p in ps)
+
+
+def g_alt(r, st, depth):
+    ss = [g_seq(r, st, depth) for _ in range(r.choice([1, 2, 2, 2, 3] if depth == 0 else [1, 1, 2, 2, 3]))]
+    return ('alt', [x[0] for x in ss]), any(x[1] for x in ss), any(x[2] for x in ss)
+
+
+def g_text(n):
+    k = n[0]
+    if k == 'lit':
+        return n[1]
+    if k == 'cls':
+        return n[1]
+    if k == 'grp':
+        return '(' + g_text(n[1]) + ')'
+    if k == 'alt':
+        return '|'.join(g_text(x) for x in n[1])
+    if k == 'seq':
+        return ''.join(g_text(x) for x in n[1])
+    return g_text(n[1]) + n[2]
+
+
+def g_sample(r, n):
+    """A string the node matches (one random way through it)."""
+    k = n[0]
+    if k == 'lit':
+        return n[1]
+    if k == 'cls':
+        return r.choice(list(n[2]))
+    if k == 'grp':
+        return g_sample(r, n[1])
+    if k == 'alt':
+        return g_sample(r, r.choice(n[1]))
+    if k == 'seq':
+        return ''.join(g_sample(r, x) for x in n[1])
+    return ''.join(g_sample(r, n[1]) for _ in range(r.range(n[3], n[4])))
+
+
+def g_groups(n):
+    k = n[0]
+    if k in ('lit', 'cls'):
+        return 0
+    if k == 'grp':
+        return 1 + g_groups(n[1])
+    if k in ('alt', 'seq'):
+        return sum(g_groups(x) for x in n[1])
+    return g_groups(n[1])
+
+
+def g_pattern(r):
+    """A pattern tree with 1..4 groups, at least one of them inside an alternation or under ? / * / {0,n}."""
+    for _ in range(50):
+        st = {'n': 0, 'max': r.choice([1, 2, 2, 3, 4])}
+        t = r.below(6)
+        if t == 0:              # (A)|B, B|(A), (A)|(B)|C: a group is a whole alternative
+            alts = []
+            for _ in range(r.choice([2, 2, 3])):
+                s = g_seq(r, st, 1)[0]
+                if r.chance(2, 3) and st['n'] < st['max']:
+                    st['n'] += 1
+                    s = ('seq', [('grp', ('alt', [s]))])
+                alts.append(s)
+            n = ('alt', alts)
+        elif t == 1:            # X(A)?Y: an optional group between two mandatory parts
+            st['n'] += 1
+            g = g_alt(r, st, 1)[0]
+            n = ('alt', [('seq', [g_seq(r, st, 1)[0], ('rep', ('grp', g), '?', 0, 1), g_seq(r, st, 1)[0]])])
+        elif t == 2:            # ((A)|B)*C: a repeated group whose inner group takes part in some rounds only
+            st['n'] += 1
+            g, nl, lp = g_alt(r, st, 1)
+            if nl or lp:
+                continue
+            suf, lo, hi = r.choice([('*', 0, 3), ('+', 1, 3), ('{1,2}', 1, 2), ('{0,2}', 0, 2)])
+            n = ('alt', [('seq', [('rep', ('grp', g), suf, lo, hi), g_seq(r, st, 1)[0]])])
+        else:
+            n = g_alt(r, st, 0)[0]
+        txt = g_text(n)
+        if 1 <= g_groups(n) <= 4 and ('|' in txt or '?' in txt or '*' in txt or '{0' in txt) and len(txt) <= 60:
+            return n
+    return ('alt', [('seq', [('grp', ('alt', [('seq', [('lit', 'a')])]))]), ('seq', [('lit', 'b')])])
+
+
+def g_mutate(r, s):
+    """Change a sampled match a little, so that a branch gets some way (into or past a group) and then fails."""
+    cs = list(s)
+    t = r.below(8)
+    if not cs or t == 0:
+        return s + r.choice(G_ALPHA)
+    i = r.below(len(cs))
+    if t < 4:
+        cs[i] = r.choice(G_ALPHA)
+    elif t < 6:
+        del cs[i]
+    elif t < 7:
+        cs.insert(i, r.choice(G_ALPHA))
+    else:
+        cs = cs[:i]
+    return ''.join(cs)
+
+
+def g_repl(r, ng):
+    """Replacement text that refers to groups: usually to every group of the pattern and the first one beyond."""
+    t = r.below(10)
+    if t < 5:
+        return r.choice(['<', '[', '{', '']) + ''.join('\\%d%s' % (k, r.choice(['', '', '|', '-'])) for k in range(1, min(ng + 1, 9) + 1)) + r.choice(['>', ']', ''])
+    if t < 7:
+        ks = list(range(ng, 0, -1))
+        return ''.join('\\%d' % k for k in ks) + r.choice(['', '&', '\\0'])
+    if t < 8:
+        return '\\%d' % r.range(1, 9)
+    items = []
+    for _ in range(r.range(1, 5)):
+        k = r.below(8)
+        items.append('\\%d' % r.range(1, max(1, ng)) if k < 4 else ('\\%d' % r.range(ng + 1, 9) if k < 5 and ng < 9 else r.choice(['&', '\\0', 'X', 'é', '-', '\\\\'])))
+    return ''.join(items)
+
+
+def group_lines(r, tree, n):
+    out = []
+    for _ in range(n):
+        t = r.below(10)
+        pre = r.choice(['', '', 'x', 'y', 'é', 'ab'])
+        post = r.choice(['', '', 'y', 'c', '中'])
+        if t < 3:
+            out.append(pre + g_sample(r, tree) + post)
+        elif t < 8:
+            out.append(pre + g_mutate(r, g_sample(r, tree)) + post)
+        elif t < 9:
+            out.append(g_mutate(r, g_sample(r, tree)) + ' ' + g_mutate(r, g_sample(r, tree)))
+        else:
+            out.append(''.join(r.choice(G_ALPHA) for _ in range(r.range(0, 8))))
+    return out
+
+
+def group_script(r):
+    """An ex script of substitutions whose replacements refer to groups of abandoned pattern parts.  Returns (lines, files)."""
+    trees = [g_pattern(r) for _ in range(r.choice([1, 2, 3, 4]))]
+    flines = []
+    for t in trees:
+        flines += group_lines(r, t, r.choice([2, 3, 4, 6]))
+    r.shuffle(flines)
+    flines = [l.replace('/', '').replace('!', '')[:24] for l in flines][:16]
+    files = {'f.txt': ('\n'.join(flines) + '\n').encode('utf-8'), 'g.txt': b'second\nfile\n', 'cmds.ex': b'p\n'}
+    out = []
+    for t in trees:
+        pat, ng = g_text(t), g_groups(t)
+        for _ in range(r.choice([1, 2, 2, 3])):
+            rp = g_repl(r, ng)
+            a = r.choice(['%', '%', '%', '1,$', '', '1', '$', '2,3'])
+            k = r.below(10)
+            if k < 6:
+                out.append(a + 's/' + pat + '/' + rp + '/' + r.choice(['', '', 'g', 'g']))
+            elif k < 8:
+                out.append(r.choice(['g', 'g', 'v']) + '/' + r.choice(['a', 'b', 'x', '.', pat]) + '/s/' + pat + '/' + rp + '/')
+            elif k < 9:
+                out += ['%s/' + pat + '/' + rp + '/', '%&&', '%s//' + g_repl(r, ng) + '/g']
+            else:
+                out += ['se ic', a + 's/' + pat + '/' + rp + '/g', 'se noic']
+            if r.chance(1, 2):
+                out.append(r.choice(['u', 'u', 'u', '%p', 'redo']))
+    return [l.encode('utf-8') for l in out], files
+
+
+GROUP_SHAPES = ['(A)|B', 'B|(A)', '(A)|(B)', '(A)|(B)|C', 'X(A)?B', 'X(A)?(B)?C', 'X(A)*B', '((A)|B)*C', '((A)|B)+C', '(X(A)?)*C', '((A)(B)?)|C',
+                '(A|(B))+C', '((A)|(B))*C', '(A(B)?)?C', 'X((A)|B)?C', '(((A)|B)|C)*X', '((A)|(B)|(C))+X', '(A)?(B)?(C)?(X)?Y']
+
+
+def group_sweep():
+    """The smallest patterns of every shape the stream draws from (letters A B C X stand for one-character literals), each with a
+    replacement that refers to every group and the first number beyond, on every line of up to four characters over the
+    pattern's letters plus one foreign letter: deterministic, run on every seed.  Returns a list of (lines, files)."""
+    import itertools
+    cases = []
+    for shape in GROUP_SHAPES:
+        pat = shape.replace('A', 'a').replace('B', 'b').replace('C', 'c').replace('X', 'x').replace('Y', 'y')
+        ng = pat.count('(')
+        letters = sorted(set(ch for ch in pat if ch.isalpha())) + ['z']
+        flines = [''.join(t) for n in range(1, 5) for t in itertools.product(letters, repeat=n)]
+        rp = '<' + '|'.join('\\%d' % k for k in range(1, min(ng + 1, 9) + 1)) + '>'
+        for i in range(0, len(flines), 400):
+            files = {'f.txt': ('\n'.join(flines[i:i + 400]) + '\n').encode('utf-8'), 'g.txt': b'second\nfile\n', 'cmds.ex': b'p\n'}
+            cases.append(([('%s/' + pat + '/' + rp + '/').encode(), b'u', ('%s/' + pat + '/' + rp + '/g').encode()], files))
+    return cases
+
+
 def vi_stream(r):
     """Returns (atoms, files, rows, cols)."""
     files = {}
